@@ -39,6 +39,7 @@ CONTRACTS[F + "arr_union"] = dict(
 CONTRACTS[F + "sparse_mul"] = dict(
     params=dict(ind1="int[]", data1="real[]", ind2="int[]", data2="real[]"),
     requires=SORTED_PRE,
+    returns="(int[],real[])",
     ensures=[
         "len(result[0]) == len(result[1])",
         "strictly_increasing(result[0])",
@@ -117,4 +118,39 @@ CONTRACTS[F + "dense_union"] = dict(
         "while#2": dict(invariant=_DU_INV + ["i1 >= len(ind1) or i2 >= len(ind2)"], decreases="len(ind1) - i1"),
         "while#3": dict(invariant=_DU_INV + ["i1 >= len(ind1)"], decreases="len(ind2) - i2"),
     },
+)
+
+# ---------------------------------------------------------------- dense distances: memory safety + float safety (fsafe)
+_DENSE_PRE = ["len(x) == len(y)", "forall(0, len(x), lambda k: x[k] >= 0)", "forall(0, len(y), lambda k: y[k] >= 0)"]
+CONTRACTS[F + "hellinger"] = dict(
+    params=dict(x="real[]", y="real[]"), requires=_DENSE_PRE, fsafe=True, returns="real",
+    # every sqrt argument is >= 0 and every divisor is != 0 (fsafe obligations); the result is a non-negative real
+    ensures=["result >= 0", "unchanged(x) and unchanged(y)"],
+    loops={"for#1": dict(invariant=["result >= 0 and l1_norm_x >= 0 and l1_norm_y >= 0"])},
+)
+CONTRACTS[F + "total_variation"] = dict(
+    params=dict(x="real[]", y="real[]"), requires=_DENSE_PRE, returns="real",
+    ensures=["result >= 0", "unchanged(x) and unchanged(y)"],
+    loops={"for#1": dict(invariant=["True"]), "for#2": dict(invariant=["result >= 0", "len(x_pdf) == len(x) and len(y_pdf) == len(x)"])},
+)
+CONTRACTS[F + "kantorovich1d"] = dict(
+    params=dict(x="real[]", y="real[]", p="int"), requires=_DENSE_PRE + ["p == 1 or p == 2"], returns="real",
+    ensures=["unchanged(x) and unchanged(y)"],
+    loops={"for#1": dict(invariant=["True"]), "for#2": dict(invariant=["len(x_cdf) == len(x) and len(y_cdf) == len(x)"]),
+           "for#3": dict(invariant=["len(x_cdf) == len(x) and len(y_cdf) == len(x)"]), "for#4": dict(invariant=["len(x_cdf) == len(x) and len(y_cdf) == len(x)"]),
+           "for#5": dict(invariant=["len(x_cdf) == len(x) and len(y_cdf) == len(x)"])},
+)
+CONTRACTS[F + "jensen_shannon_divergence"] = dict(
+    params=dict(x="real[]", y="real[]"), requires=_DENSE_PRE, returns="real", ensures=["unchanged(x) and unchanged(y)"],
+    loops={"for#1": dict(invariant=["True"]), "for#2": dict(invariant=["len(pdf_x) == len(x) and len(pdf_y) == len(x) and len(m) == len(x)"])},
+)
+CONTRACTS[F + "symmetric_kl_divergence"] = dict(
+    params=dict(x="real[]", y="real[]"), requires=_DENSE_PRE, returns="real", ensures=["unchanged(x) and unchanged(y)"],
+    loops={"for#1": dict(invariant=["True"]), "for#2": dict(invariant=["len(pdf_x) == len(x) and len(pdf_y) == len(x)"])},
+)
+CONTRACTS[F + "sparse_hellinger"] = dict(
+    params=dict(ind1="int[]", data1="real[]", ind2="int[]", data2="real[]"),
+    requires=SORTED_PRE + ["forall(0, len(data1), lambda k: data1[k] >= 0)", "forall(0, len(data2), lambda k: data2[k] >= 0)"],
+    returns="real", ensures=["unchanged(data1) and unchanged(data2)"],
+    loops={"for#1": dict(invariant=["True"])},
 )
